@@ -228,3 +228,5 @@ REPLAY["classes"] = replay_classes
 
 from suites import thorough as _th
 GROUPS["thorough:class-programs"] = _th.bounded_from_replay("bounded/class-programs", replay_classes)
+from suites import progenum as _pg
+GROUPS["thorough:enum-class-statements"] = _th.only_thorough(_pg.g_f6)
